@@ -145,15 +145,24 @@ def theorem_names(pid):
 
 
 def extra_theorems(pid):
-    """(module, name) of the composition theorems (props/Compose.v) registered for this property:
-    cfg['compose'] = list of name prefixes, e.g. ["Compose_ingest", "Compose_wf"]."""
+    """(module, name) of the composition theorems (props/Compose*.v) registered for this property:
+    cfg['compose'] = list of name prefixes, e.g. ["Compose_ingest", "Compose_wf"]; the modules looked at are
+    the props/Compose*.vo files listed in cfg['coq']."""
     pref = PROPS[pid].get("compose")
-    f = os.path.join(COQ, "props", "Compose.v")
-    if not pref or not os.path.exists(f):
+    if not pref:
         return []
-    src = strip_coq_comments(open(f).read())
-    names = re.findall(r"^\s*(?:Theorem|Lemma|Corollary)\s+([A-Za-z0-9_']+)", src, re.M)
-    return [("Compose", n) for n in names if any(n.startswith(p) for p in pref)]
+    res = []
+    for tg in PROPS[pid]["coq"]:
+        mod = os.path.basename(tg)[:-3]
+        if not mod.startswith("Compose"):
+            continue
+        f = os.path.join(COQ, "props", mod + ".v")
+        if not os.path.exists(f) or not os.path.exists(os.path.join(COQ, "props", mod + ".vo")):
+            continue
+        src = strip_coq_comments(open(f).read())
+        names = re.findall(r"^\s*(?:Theorem|Lemma|Corollary)\s+([A-Za-z0-9_']+)", src, re.M)
+        res += [(mod, n) for n in names if any(n.startswith(p) for p in pref)]
+    return res
 
 
 def tie_theorems(pid):
@@ -177,16 +186,16 @@ def print_assumptions(pid, bdir):
     for n in names:
         lines.append('Redirect "%s" Print Assumptions %s.' % (os.path.join(bdir, "pa_" + n), n))
     ties = [(m, n) for (m, n) in tie_theorems(pid) if os.path.exists(os.path.join(COQ, "gen", m + ".vo"))]
-    comps = extra_theorems(pid) if os.path.exists(os.path.join(COQ, "props", "Compose.vo")) else []
-    if comps:
-        lines.append("From W.props Require Compose.")
-        for m, n in comps:
-            lines.append('Redirect "%s" Print Assumptions W.props.Compose.%s.' % (os.path.join(bdir, "pa_Compose.%s" % n), n))
+    comps = extra_theorems(pid)
+    for m in sorted(set(m for m, _ in comps)):
+        lines.append("From W.props Require %s." % m)
+    for m, n in comps:
+        lines.append('Redirect "%s" Print Assumptions W.props.%s.%s.' % (os.path.join(bdir, "pa_%s.%s" % (m, n)), m, n))
     for m in sorted(set(m for m, _ in ties)):
         lines.append("From W.gen Require %s." % m)
     for m, n in ties:
         lines.append('Redirect "%s" Print Assumptions W.gen.%s.%s.' % (os.path.join(bdir, "pa_%s.%s" % (m, n)), m, n))
-    names = names + ["%s.%s" % (m, n) for m, n in ties] + ["Compose.%s" % n for _, n in comps]
+    names = names + ["%s.%s" % (m, n) for m, n in ties] + ["%s.%s" % (m, n) for m, n in comps]
     vf = os.path.join(bdir, "Assumptions_%s.v" % pid)
     with open(vf, "w") as f:
         f.write("\n".join(lines) + "\n")
@@ -305,6 +314,102 @@ def harness_gen(pid, seed, tier, out, timeout):
 def harness_replay(pid, casefile, out, timeout=600):
     return sh([os.path.join(BUILD, "verifharness"), "replay", pid, casefile, out], env=GOENV, timeout=timeout)
 
+
+
+# ---------------------------------------------------------------- race-detector stage (C16)
+RACE_BIN = os.path.join(BUILD, "verifharness_race")
+
+
+def build_race_harness():
+    hdir = os.path.join(VERIF, "harness")
+    with Lock("go"):
+        shutil.copy(os.path.join(REPO, "go.sum"), os.path.join(hdir, "go.sum"))
+        rc, out, dt = sh(["go", "build", "-race", "-tags", "verif", "-o", RACE_BIN, "."],
+                         cwd=hdir, env=GOENV, timeout=1800)
+    return rc == 0, out
+
+
+def race_reports(prefix):
+    """Parse GORACE log files -> list of report texts that involve code of the repository."""
+    reps = []
+    for p in sorted(glob.glob(prefix + ".*")):
+        txt = open(p, errors="replace").read()
+        for part in txt.split("WARNING: DATA RACE")[1:]:
+            part = part.split("==================")[0]
+            if "github.com/wrgl/wrgl/" in part:
+                reps.append("WARNING: DATA RACE" + part)
+    return reps
+
+
+def race_signature(rep):
+    fr = re.findall(r"^\s+(github\.com/wrgl/wrgl/[^\s(]+)\(", rep, re.M)
+    return " <-> ".join(fr[:2]) if fr else rep[:120]
+
+
+def race_replay(pid, cstrs, bdir, name, timeout=1200, halt=False):
+    """Run the cases under the race-instrumented harness -> (rc, reports)."""
+    cin = os.path.join(bdir, name + "_in.txt")
+    cout = os.path.join(bdir, name + "_out.txt")
+    prefix = os.path.join(bdir, name + "_log")
+    for p in glob.glob(prefix + ".*"):
+        os.remove(p)
+    with open(cin, "w") as f:
+        for c in cstrs:
+            f.write("C " + c + "\n")
+    env = dict(GOENV, GORACE="log_path=%s halt_on_error=%d exitcode=66 history_size=2" % (prefix, 1 if halt else 0))
+    rc, out, _ = sh([RACE_BIN, "replay", pid, cin, cout], env=env, timeout=timeout)
+    return rc, race_reports(prefix)
+
+
+def race_stage(pid, bdir, cases, tier, cfg, ob, violations, notes, info):
+    """Replay (a share of) the generated cases with a -race build of the harness.  Supporting
+    search, not proof: the race-freedom theorems are about the model; this stage looks for a
+    concrete execution of the real code in which the Go race detector observes a data race."""
+    okb, outb = build_race_harness()
+    ob("go build -race harness against /repo working tree", "build", okb, outb)
+    if not okb:
+        return
+    every = cfg["race"].get(tier, 1)
+    sel = [c["C"] for i, c in enumerate(cases) if c["I"] is not None and len(c["C"]) < 200000 and i % every == 0]
+    t1 = time.time()
+    rc, reps = race_replay(pid, sel, bdir, "race", timeout=cfg["race"].get("timeout", 1800))
+    info["race_detector_cases"] = len(sel)
+    info["race_detector_reports"] = len(reps)
+    sigs = sorted(set(race_signature(r) for r in reps))
+    ob("race detector: %d cases replayed under -race in %.0fs, %d report(s) in repository code" % (
+        len(sel), time.time() - t1, len(reps)), "race-detector", not reps, "\n".join(sigs) + "\n" + (reps[0] if reps else ""))
+    if not reps:
+        return
+    # localise: replay the cases one by one (in parallel), first one that races is the witness
+    from concurrent.futures import ThreadPoolExecutor
+    def one(ic):
+        i, c = ic
+        d = os.path.join(bdir, "race1_%d" % i)
+        os.makedirs(d, exist_ok=True)
+        try:
+            _, r = race_replay(pid, [c], d, "r", timeout=300, halt=True)
+        finally:
+            pass
+        return (i, c, r)
+    witness = None
+    order = sorted(enumerate(sel), key=lambda ic: len(ic[1]))
+    with ThreadPoolExecutor(max_workers=12) as ex:
+        for i, c, r in ex.map(one, order[:400]):
+            if r and witness is None:
+                witness = (c, r[0])
+    for d in glob.glob(os.path.join(bdir, "race1_*")):
+        shutil.rmtree(d, ignore_errors=True)
+    if witness is not None:
+        path = write_replay(pid, "data-race", dict(
+            case=witness[0], race=True, cls="data-race", message=race_signature(witness[1]), report=witness[1][:6000],
+            n_reports=len(reps), signatures=sigs[:10],
+            how="./check %s --replay <this file>  (replays the case under a -race build, up to 20 times)" % pid))
+    else:
+        path = write_replay(pid, "data-race", dict(
+            batch=sel, race=True, cls="data-race", message=sigs[0], report=reps[0][:6000], n_reports=len(reps),
+            signatures=sigs[:10],
+            how="./check %s --replay <this file>  (replays the batch under a -race build)" % pid))
+    violations.append((path, ""))
 
 def write_replay(pid, kind, payload):
     os.makedirs(os.path.join(VERIF, "replay"), exist_ok=True)
@@ -564,6 +669,8 @@ def main(argv):
             ob("correspondence+oracle batch '%s' (%d cases)" % (tag, n), "correspondence", nb == 0,
                "%d failing" % nb)
         corr_ok = not (spec_fail or mismatch or crashed)
+        if cfg.get("race"):
+            race_stage(pid, bdir, cases, tier, cfg, ob, violations, notes, info)
 
         def still_fails_factory(cls, want_mismatch):
             def f(cstrs, timeout_s=30):
@@ -695,6 +802,22 @@ def do_replay(pid, bdir, path, known):
         log("replay file names a proof obligation / correspondence that no longer checks: %s" % r.get("no_longer_checks"))
         log("re-run ./check %s to re-check it" % pid)
         return 1
+    if r.get("race"):
+        okb, outb = build_race_harness()
+        if not okb:
+            log("race harness does not build:\n" + outb[-2000:])
+            log("VIOLATION property=%s replay=%s" % (pid, path))
+            return 1
+        batch = [r["case"]] if r.get("case") else r.get("batch", [])
+        for k in range(1 if not r.get("case") else 20):
+            _, reps = race_replay(pid, batch, bdir, "race_replay", timeout=1800)
+            if reps:
+                log(reps[0][:3000])
+                log("data race observed (run %d): %s" % (k + 1, race_signature(reps[0])))
+                log("VIOLATION property=%s replay=%s" % (pid, path))
+                return 1
+        log("no data race observed in the replayed case(s)")
+        return 0
     cin = os.path.join(bdir, "replay_in.txt")
     cout = os.path.join(bdir, "replay_out.txt")
     with open(cin, "w") as f:
